@@ -254,3 +254,82 @@ def r2(rep, F):
                                 "apply: the same header code classifies MT%s differently" % (k, l, f, k),
                                 b["file"], table.get("ln")))
     return r
+
+
+# ---------------------------------------------------------------------------
+# R3: a code word counts wherever it stands in the narrative
+
+POSITIONAL = ("first", "last", "get", "nth", "next", "take", "skip", "split_first", "split_last", "pop", "remove",
+              "swap_remove", "truncate", "step_by", "take_while", "skip_while", "nth_back", "next_back", "get_mut",
+              "first_mut", "last_mut", "chunks", "windows")
+
+
+def r3(rep, F):
+    """has_reject_codes / has_return_codes / is_cover_message read a narrative (`information: Vec<String>` of
+    field 72 / 79) and the property says 'carries a code word in one of the documented places', i.e. on any line:
+    every read of a narrative vector in a classification predicate (and in the helpers it calls) must be consumed by
+    a traversal of all its elements; a positional selection (first / [0] / get / take / skip ..) makes the verdict
+    depend on where the code word stands."""
+    from .relidx import _parents
+    r = rep.rule("R3", "every line counts: in has_reject_codes / has_return_codes / is_cover_message (all message "
+                       "types, helpers included) a narrative vector (Vec<String> component of field 72 / 79) is "
+                       "consumed by a traversal of all its lines, never through first / last / get / [k] / take / "
+                       "skip / next", floor=7)
+    seen = set()
+
+    def scan(b, root, depth):
+        if b is None or "body" not in b or b.get("exp") or b["path"] in seen or depth > 2:
+            return
+        seen.add(b["path"])
+        par = _parents(b["body"])
+        for n in walk(b["body"]):
+            if n.get("k") in ("call", "mcall"):
+                cal = callee(n)
+                hb = F.body_by_path.get(cal)
+                if hb is not None and cal.startswith("messages::") and hb.get("name") not in PREDS:
+                    scan(hb, root, depth + 1)
+            if n.get("k") != "field":
+                continue
+            ad = F.adts.get(n.get("bt") or "")
+            ty = ""
+            for v_ in (ad or {}).get("variants") or []:
+                for f_ in v_.get("fields") or []:
+                    if f_.get("name") == n.get("name"):
+                        ty = f_.get("ty") or ""
+            if not re.search(r"Vec<(std::string::)?String>", ty):
+                continue
+            r["instances"] += 1
+            # climb through the adapters applied to the vector
+            chain = []
+            cur = n
+            p = par.get(id(cur))
+            while isinstance(p, dict):
+                k = p.get("k")
+                if k in ("ref", "un", "cast", "paren") or (k == "block" and not p.get("stmts")):
+                    cur, p = p, par.get(id(p))
+                    continue
+                if k == "mcall" and p.get("recv") is cur:
+                    chain.append(p.get("m"))
+                    cur, p = p, par.get(id(p))
+                    continue
+                if k == "index" and p.get("e") is cur:
+                    chain.append("[..]")
+                break
+            bad = [m for m in chain if m in POSITIONAL or m == "[..]"]
+            if bad:
+                rep.add(Finding("R3", root["path"], "positional:%s:%s" % (n.get("name"), bad[0]),
+                                "%s reads the narrative `%s` through `%s`: a code word on another line is not seen, "
+                                "the classification depends on where the code word stands"
+                                % (root["path"], n.get("name"), ".".join(chain)[:80]), b["file"], n.get("ln")))
+
+    n_pred = 0
+    for b in F.bodies:
+        if "body" not in b or b.get("exp") or b.get("name") not in PREDS[:3]:
+            continue
+        if not (b.get("impl_self") or "").startswith("messages::"):
+            continue
+        n_pred += 1
+        seen.clear()
+        scan(b, b, 0)
+    r["analysed"] = n_pred
+    return r
